@@ -602,7 +602,7 @@ ima_read_s (SF_PRIVATE *psf, short *ptr, sf_count_t len)
 	while (len > 0)
 	{	readcount = (len > 0x10000000) ? 0x10000000 : (int) len ;
 
-		count = ima_read_block (psf, pima, ptr, readcount) ;
+		count = ima_read_block (psf, pima, ptr + total, readcount) ;
 
 		total += count ;
 		len -= count ;
@@ -904,7 +904,7 @@ ima_write_s (SF_PRIVATE *psf, const short *ptr, sf_count_t len)
 	while (len)
 	{	writecount = (len > 0x10000000) ? 0x10000000 : (int) len ;
 
-		count = ima_write_block (psf, pima, ptr, writecount) ;
+		count = ima_write_block (psf, pima, ptr + total, writecount) ;
 
 		total += count ;
 		len -= count ;
